@@ -73,7 +73,7 @@ def paging_bits(rng):
         out += [0x01, 0xFD, 0xFF, 0x3E, reg, 0xED, 0x79, 0x06, 0xBF, 0x3E, rng.randrange(256), 0xED, 0x79]   # select AY reg, write value
     return out
 
-def make_program(rng):
+def make_program(rng, force_sp=None):
     if rng.random() < 0.12:
         # boundary-directed: interrupts disabled while the frame boundary passes, EI a few T-states into the new frame
         # (the pending interrupt must survive a save taken inside the acceptance window)
@@ -81,6 +81,17 @@ def make_program(rng):
         k = rng.randint(0, 6)
         tail = rng.choice([[0x00, 0x00], [0xDD, 0x00], [0x76], [0x00, 0xFB, 0x00]])
         return ('boundary', rng.random() < 0.3), org, [0x00] * k + [0xFB] + tail + [0x00] * 6 + [0xC3, org & 0xFF, org >> 8]
+    if rng.random() < 0.08 or force_sp is not None:
+        # boundary-directed: an interrupt accepted with the stack on the ROM/RAM boundary (or wrapping): the pushed return
+        # address falls partly into ROM, which a snapshot does not carry; the IM 2 routine copies the two stack bytes to RAM
+        sp = rng.choice([0x4000, 0x4000, 0x4001, 0x4002, 0x3FFF, 0x0001, 0x0000]) if force_sp is None else force_sp
+        org = 0x80E0
+        code = [0x31, sp & 0xFF, sp >> 8, 0x3E, 0x80, 0xED, 0x47, 0xED, 0x5E, 0xFB, 0x76] + [0x00] * 20
+        code += [0x10, 0x81]                                  # 0x80FF: vector -> 0x8110
+        code += [0x00] * (0x8110 - org - len(code))
+        a, b = (sp - 1) & 0xFFFF, (sp - 2) & 0xFFFF
+        code += [0x3A, a & 0xFF, a >> 8, 0x32, 0x01, 0x90, 0x3A, b & 0xFF, b >> 8, 0x32, 0x02, 0x90, 0x31, 0x00, 0x70, 0xFB, 0x18, 0xFE]
+        return ('boundary', rng.random() < 0.3), org, code
     if rng.random() < 0.08:
         # boundary-directed: EI; HALT with the HALT as the last contended byte (0x7FFF) or first uncontended one
         org = rng.choice([0x7FFE, 0x7FFD, 0x7FFF, 0xBFFE])
@@ -169,9 +180,12 @@ def run(shard, spec):
     cases = list(range(spec['shard'], nprog, spec['of']))
     if spec['shard'] == 0:
         cases.insert(0, 'witness')         # the listed finding's witness is replayed first, deterministically
+    DIRECTED = {'stack-4000-c': 0x4000, 'stack-4001-c': 0x4001, 'stack-0001-c': 0x0001, 'stack-4000-py': 0x4000}
+    if spec['shard'] in (1, 2, 3, 4) and spec['shard'] < spec['of']:
+        cases.insert(0, sorted(DIRECTED)[spec['shard'] - 1])     # the stack-on-the-ROM-boundary programs, in every run
     for case in cases:
         rng = shard.rng('prog', case)
-        is128, org, code = make_program(rng)
+        is128, org, code = make_program(rng, DIRECTED.get(case))
         boundary = isinstance(is128, tuple)
         if boundary:
             is128 = is128[1]
@@ -179,6 +193,9 @@ def run(shard, spec):
         cmio = rng.random() < 0.4
         py = rng.random() < (0.6 if boundary else 0.25)
         N = rng.choice([40, 80, 120]) if not py else rng.choice([30, 60])
+        if case in DIRECTED:
+            py = case.endswith('-py')
+            N = 40
         if case == 'witness':
             is128, org, code, ext, cmio, py, N = False, 0x7FFE, [0xFB, 0x76, 0x18, 0xFC], 'szx', True, False, 40
         if shard.tier == 'thorough':
